@@ -373,7 +373,8 @@ func (c *callEngine) callWithStack(ctx context.Context, paramResultStack []uint6
 			hostModule := hostModuleFromOpaque(c.execCtx.goFunctionCallCalleeModuleContextOpaque)
 			def := hostModule.FunctionDefinition(wasm.Index(index))
 			clearUpper32Bits(s, def.ParamTypes())
-			listener.Before(ctx, callerModule, def, s, c.stackIterator(true))
+			// s has max(#params, #results) slots: the listener only sees the params, then only the results.
+			listener.Before(ctx, callerModule, def, s[:len(def.ParamTypes())], c.stackIterator(true))
 			// Call into the Go function.
 			func() {
 				if snapshotEnabled {
@@ -382,7 +383,7 @@ func (c *callEngine) callWithStack(ctx context.Context, paramResultStack []uint6
 				f.Call(ctx, s)
 			}()
 			// Call Listener.After.
-			listener.After(ctx, callerModule, def, s)
+			listener.After(ctx, callerModule, def, s[:len(def.ResultTypes())])
 			// Back to the native code.
 			c.execCtx.exitCode = wazevoapi.ExitCodeOK
 			afterGoFunctionCallEntrypoint(c.execCtx.goCallReturnAddress, c.execCtxPtr,
@@ -414,7 +415,8 @@ func (c *callEngine) callWithStack(ctx context.Context, paramResultStack []uint6
 			hostModule := hostModuleFromOpaque(c.execCtx.goFunctionCallCalleeModuleContextOpaque)
 			def := hostModule.FunctionDefinition(wasm.Index(index))
 			clearUpper32Bits(s, def.ParamTypes())
-			listener.Before(ctx, callerModule, def, s, c.stackIterator(true))
+			// s has max(#params, #results) slots: the listener only sees the params, then only the results.
+			listener.Before(ctx, callerModule, def, s[:len(def.ParamTypes())], c.stackIterator(true))
 			// Call into the Go function.
 			func() {
 				if snapshotEnabled {
@@ -423,7 +425,7 @@ func (c *callEngine) callWithStack(ctx context.Context, paramResultStack []uint6
 				f.Call(ctx, callerModule, s)
 			}()
 			// Call Listener.After.
-			listener.After(ctx, callerModule, def, s)
+			listener.After(ctx, callerModule, def, s[:len(def.ResultTypes())])
 			// Back to the native code.
 			c.execCtx.exitCode = wazevoapi.ExitCodeOK
 			afterGoFunctionCallEntrypoint(c.execCtx.goCallReturnAddress, c.execCtxPtr,
